@@ -361,7 +361,9 @@ impl<'c, Param, Yield, Return> Coroutine<'c, Param, Yield, Return> {
             static STACK_INFOS: RefCell<VecDeque<StackInfo>> = const { RefCell::new(VecDeque::new()) };
         }
         if let Some(last_stack_info) = STACK_INFOS.with(|s| s.borrow().back().copied()) {
-            let remaining_stack = psm::stack_pointer() as usize - last_stack_info.stack_bottom;
+            // the lowest page of a segment is its guard page, it is not usable stack
+            let remaining_stack = (psm::stack_pointer() as usize)
+                .saturating_sub(last_stack_info.stack_bottom + crate::common::page_size());
             if remaining_stack >= red_zone {
                 return Ok(callback());
             }
